@@ -11,6 +11,21 @@ THOROUGH = dict(caps=[3], sym=False)
 LOCK_PROPS = ('C06', 'C07')
 
 
+def case_list(fs):
+    """case splits of the precondition: 'split = E' (E / !E) and 'cases = A ;; B ;; ...' (the disjuncts of a
+    requires clause of the same function); the product of both.  Every case is its own proof unit."""
+    split = fs.opts.get('split')
+    a = [None] if not split else [split, '!(%s)' % split]
+    cs = fs.opts.get('cases')
+    b = [None] if not cs else [x.strip() for x in cs.split(';;')]
+    out = []
+    for x in a:
+        for y in b:
+            e = ' && '.join('(%s)' % z for z in (x, y) if z)
+            out.append((len(out), e) if e else None)
+    return out
+
+
 def load(gdir):
     gen = os.path.join(gdir, 'gen')
     infos = {i['cname']: i for i in json.load(open(os.path.join(gen, 'info.json')))}
@@ -48,9 +63,7 @@ def units_for(prop, tier, gdir):
             notes['functions'].append(fn)
             for mc in ([int(sp.funcs[fn].opts['quickcap'])] if tier == 'quick' and 'quickcap' in sp.funcs[fn].opts else caps):
                 to = int(sp.funcs[fn].opts.get('timeout', '1500' if tier == 'quick' else '3600'))
-                split = sp.funcs[fn].opts.get('split')
-                cases = [None] if not split else [(0, split), (1, '!(%s)' % split)]
-                for case in cases:
+                for case in case_list(sp.funcs[fn]):
                     units.append(engine.Unit(cn, fn, mc, sp, infos[cn], gen, timeout=to, sym=cfg['sym'], case=case))
             if tier == 'thorough' and sp.funcs[fn].opts.get('modular') == 'yes':
                 units.append(engine.Unit(cn, fn, 2, sp, infos[cn], gen, timeout=3600, modular=True))
